@@ -187,6 +187,19 @@ def helper_write0(f, val):
     return "always" if ok else "sometimes"
 
 
+def loop_head_of(body, bb):
+    """block of the innermost `next()` call whose Some edge dominates bb (the `for` loop bb sits in), or None"""
+    best = None
+    for sb in body.switches:
+        si = body.switch_info(sb)
+        if si["enum"] == "core::option::Option" and si["edges"].get("Some") is not None:
+            for alt in phi_alts(si["subject"]):
+                if is_call(alt, "core::iter::Iterator::next") and body.dominates(si["edges"]["Some"], bb):
+                    if best is None or body.dominates(best[0], si["edges"]["Some"]):
+                        best = (si["edges"]["Some"], alt[1])
+    return best[1] if best else None
+
+
 def unconditional_in_loop(body, store_bb):
     """the store block lies on every path of the enclosing `for` loop body (from the Some edge of the iterator's
     next() back to the next() call)"""
